@@ -1243,7 +1243,8 @@ def fam_tls(rng, n, dist):
     for i in range(n):
         mode, rfc = ALL_METHODS[i % 4]
         fault = rng.choice([None, None, "auth-refused", "ctl-handshake", "pbsz", "prot", "data-handshake", "truncate", "truncate",
-                            "truncate", "unknown-ca", "unclean-close", "data-rogue-cert", "data-rogue-cert"])
+                            "truncate", "unknown-ca", "unclean-close", "data-rogue-cert", "data-rogue-cert", "data-reset",
+                            "data-reset", "ctl-reset-after-auth"])
         if i % 3 == 0:
             fault = "auth-refused"          # (a third of the family: AUTH TLS refused, each code of the list below in turn)
         verify = "unknown" if fault == "unknown-ca" else ("trusted" if fault == "data-rogue-cert" else rng.choice(["trusted", "trusted", "none"]))
@@ -1259,13 +1260,14 @@ def fam_tls(rng, n, dist):
         # every refusal is a refusal, whatever the code: each one of the list turns up (no fallback to another mechanism)
         AUTH_REFUSALS = [500, 501, 502, 503, 504, 530, 533, 534, 431, 451, 550]
         b.connect(login=login, auth=AUTH_REFUSALS[(i // 3) % len(AUTH_REFUSALS)] if fault == "auth-refused" else ok_auth, plan=plan,
-                  tls_ok=(fault != "ctl-handshake"), tls_close_clean=(fault != "unclean-close"), stay_plain=keep_using)
+                  tls_ok=(fault not in ("ctl-handshake", "ctl-reset-after-auth")), tls_close_clean=(fault != "unclean-close"),
+                  stay_plain=keep_using, tls_reset=(fault == "ctl-reset-after-auth"))
         dist.add("tls:fault-%s%s" % (fault, "+keeps-using-the-client" if keep_using else ""))
         if fault != "auth-refused":
             dist.add("tls:auth-answered-%d" % ok_auth)
         else:
             dist.add("tls:auth-refused-with-%d" % AUTH_REFUSALS[(i // 3) % len(AUTH_REFUSALS)])
-        if fault in ("auth-refused", "ctl-handshake", "unknown-ca"):
+        if fault in ("auth-refused", "ctl-handshake", "unknown-ca", "ctl-reset-after-auth"):
             if keep_using:
                 # the application ignores the failure and goes on with the same client object: nothing more may be sent
                 # (the peer has gone on as a plain server and would answer)
@@ -1289,6 +1291,8 @@ def fam_tls(rng, n, dist):
             df = None
             if fault == "data-handshake" and k == 0:
                 df = "handshake"
+            if fault == "data-reset" and k == 0:
+                df = "reset-before-handshake"
             if fault == "truncate" and k == 0 and kind != "U":
                 df = "truncate"
             if fault == "data-rogue-cert" and k == rk:
@@ -1297,6 +1301,13 @@ def fam_tls(rng, n, dist):
             payload = [x for x in payload if x]
             if df == "truncate":
                 payload = [b"q" * n0 for n0 in [rng.choice([0, 0, 1, 300, 8192, 20000])] if n0]
+            if df is None and kind in ("D", "U") and rng.random() < 0.25:
+                # a transfer cancelled by the callback: ABOR and what follows travel inside TLS like everything else
+                big = [bytes([65 + j % 26]) * 8192 for j in range(4)]
+                b.transfer(kind, b"big.bin", payload_segs=big + [b"z" * 200000], chunks=big * 3,
+                           cb=[False] * rng.choice([1, 2, 3]) + [True] * 6, abor=dict(first=426, second=226))
+                dist.add("tls:cancelled-transfer")
+                continue
             b.transfer(kind, b"f" if kind != "F" else None, payload_segs=payload, chunks=payload,
                        cb=rng.choice([None, [False] * 60]) if kind != "F" else None, data_fault=df)
             if df:
@@ -1517,6 +1528,10 @@ def oracle_tls(scn, res):
         for marker in (b"MARKER-u", b"MARKER-p"):
             if marker in raw:
                 v.append((-1, "tls/credentials-in-clear-text", "session %d: %r found in the raw bytes" % (si, marker)))
+        if log.get("non_tls_bytes") and not any(l["line"].strip() == b"REIN" for l in lines) and log.get("stayed_plain_from") is None:
+            nb = log["non_tls_bytes"]
+            v.append((-1, "tls/bytes-on-the-secured-control-connection-are-not-tls-records",
+                      "session %d: after %d TLS records the client wrote %r" % (si, nb["records_before"], nb["bytes"])))
         fa = log.get("raw_first_after_auth")
         if fa is not None and len(fa) >= 2 and fa[:2] != b"\x16\x03":
             v.append((-1, "tls/bytes-after-234-are-not-a-handshake", repr(fa)))
@@ -1708,7 +1723,7 @@ PROPS = {
     "C04": dict(fam=[("uploads", 6), ("mixed", 1), ("ascii", 1)], proj=["out", "io", "wire"], oracles=["transfers"]),
     "C07": dict(fam=[("refusals", 6), ("mixed", 1)], proj=["out", "io", "held", "wire"], oracles=["transfers", "sockets", "lockstep"]),
     "C12": dict(fam=[("cancel", 5), ("mixed", 1), ("uploads", 1)], proj=["out", "io", "wire"], oracles=["transfers", "commands", "lockstep", "abor_order"]),
-    "C17": dict(fam=[("mixed", 3), ("refusals", 1), ("cancel", 1), ("reconnect", 1), ("tls", 1)], proj=["out", "held"], oracles=["sockets"]),
+    "C17": dict(fam=[("mixed", 3), ("refusals", 1), ("cancel", 1), ("reconnect", 1), ("tls", 2)], proj=["out", "held"], oracles=["sockets"]),
     "C11": dict(fam=[("tls", 6), ("reconnect", 1)], proj=["out", "state", "wire"], oracles=["tls", "commands"], n=(90, 500)),
     "C13": dict(fam=[("reconnect", 6), ("tls", 1)], proj=["out", "state", "held", "wire"], oracles=["state", "sockets", "lockstep", "tls"], n=(120, 600)),
     "C18": dict(fam=[("reuse", 1)], proj=["out", "wire"], oracles=["reuse"], n=(60, 300)),
